@@ -1893,7 +1893,8 @@ impl platform::Args for ElfArgs {
     }
 
     fn should_emit_got_plt_syms(&self) -> bool {
-        self.got_plt_syms
+        // These symbols go into .symtab, which isn't written when stripping everything.
+        self.got_plt_syms && !self.should_strip_all()
     }
 
     fn copy_relocations_enabled(&self) -> crate::args::CopyRelocations {
